@@ -37,6 +37,8 @@ Tier1(r) ==
        THEN <<V(r.id, "deviation", "DeadDebugThreadFailsShutdown", "exit status 101: DebugServer::join panicked because the debug thread had panicked earlier" \o where)>>
   ELSE IF r.rc = 101 /\ r.panicAt = PoisonPanic /\ r.state = "notoml" /\ (\E k \in 1..Len(r.others) : r.others[k] = LaunchUnwrap) /\ ~r.portAfter
        THEN <<V(r.id, "deviation", "LaunchWithoutConfigPanics", "exit status 101: the context lock was poisoned by the launch handler's panic" \o where)>>
+  ELSE IF r.rc = 1006 /\ r.state = "hugeheader" /\ ~r.portAfter
+       THEN <<V(r.id, "deviation", "HugeContentLengthAbortsProcess", "the process was aborted (SIGABRT) by a Content-Length header on the debug port" \o where)>>
   ELSE IF ~terminated
        THEN <<V(r.id, "violation", "", "Terminates: still alive " \o ToString(r.bound) \o " ms after the client finished; threads wait in " \o ToString(r.blocked)
                 \o (IF Has(r, "dbg_join_enter") /\ ~Has(r, "dbg_join_return") THEN "; main is in DebugServer::join" ELSE "")
